@@ -11,6 +11,7 @@ func init() {
 	vrt.Register("VerifC13EncVsRef", VerifC13EncVsRef)
 	vrt.Register("VerifC13DecVsRef", VerifC13DecVsRef)
 	vrt.Register("VerifC13Headers", VerifC13Headers)
+	vrt.Register("VerifC13Bits", VerifC13Bits)
 }
 
 // refPredict is a transcription of ITU-T T.81 H.1.2.1 / Table H.1.
@@ -232,17 +233,32 @@ func VerifC13DecVsRef() {
 	vrt.Assert(d == 0, "C13 library decoder reconstructs the source of a conformant T.81 stream")
 }
 
+// c13Tables returns four different valid Huffman tables (one per destination):
+// one code of each length 2..15 and three codes of length 16, with the 17
+// categories assigned in a different rotation per table.
+func c13Tables() ([4]*standard.HuffmanTable, [4][]standard.HuffmanCode) {
+	var ts [4]*standard.HuffmanTable
+	var cs [4][]standard.HuffmanCode
+	bits := [16]int{0, 1, 1, 1, 1, 1, 1, 1, 1, 1, 1, 1, 1, 1, 1, 3}
+	for k := 0; k < 4; k++ {
+		values := make([]byte, 17)
+		for i := range values {
+			values[i] = byte((i + 5*k) % 17)
+		}
+		ts[k] = standard.BuildStandardHuffmanTable(bits, values)
+		cs[k] = standard.BuildHuffmanCodes(ts[k])
+	}
+	return ts, cs
+}
+
 // VerifC13Headers: a conformant single-scan stream whose components use
-// Huffman table destinations 0..3 (DHT Th, SOS Td in the high nibble).
+// Huffman table destinations 0..3 (DHT Th, SOS Td in the high nibble); the
+// four destinations hold four different tables, so a decoder that picks the
+// wrong table mis-decodes.
 func VerifC13Headers() {
 	nc := []int{1, 3}[vrt.Choice("nc", 0, 1)]
 	P := 8
-	var freq [256]uint64
-	for i := 0; i <= 16; i++ {
-		freq[i] = 1
-	}
-	table := standard.BuildOptimalHuffmanTable(freq)
-	codes := standard.BuildHuffmanCodes(table)
+	tables, codes := c13Tables()
 	var buf bytes.Buffer
 	wr := standard.NewWriter(&buf)
 	_ = wr.WriteMarker(standard.MarkerSOI)
@@ -253,16 +269,24 @@ func VerifC13Headers() {
 	_ = wr.WriteSegment(standard.MarkerSOF3, sof)
 	tds := make([]int, nc)
 	for i := 0; i < nc; i++ {
-		tds[i] = vrt.Int("td", 0, 3)
+		tds[i] = vrt.Choice("td", 0, 3)
 	}
-	// one DHT per distinct destination used (conformant: every Td is defined)
+	oneSegment := vrt.Choice("oneDHT", 0, 1) == 1
+	var all []byte
 	for th := 0; th < 4; th++ {
 		dht := []byte{byte(th)}
 		for j := 0; j < 16; j++ {
-			dht = append(dht, byte(table.Bits[j]))
+			dht = append(dht, byte(tables[th].Bits[j]))
 		}
-		dht = append(dht, table.Values...)
-		_ = wr.WriteSegment(standard.MarkerDHT, dht)
+		dht = append(dht, tables[th].Values...)
+		if oneSegment {
+			all = append(all, dht...)
+		} else {
+			_ = wr.WriteSegment(standard.MarkerDHT, dht)
+		}
+	}
+	if oneSegment {
+		_ = wr.WriteSegment(standard.MarkerDHT, all)
 	}
 	sel := vrt.Int("ss", 1, 7)
 	sos := []byte{byte(nc)}
@@ -271,10 +295,18 @@ func VerifC13Headers() {
 	}
 	sos = append(sos, byte(sel), 0, 0)
 	_ = wr.WriteSegment(standard.MarkerSOS, sos)
-	// one pixel: difference 0 for every component (sample = 2^(P-1))
+	// one pixel per component with a symbolic difference from 2^(P-1)
 	he := standard.NewHuffmanEncoder(&buf)
+	want := make([]int, nc)
 	for i := 0; i < nc; i++ {
-		_ = he.WriteBits(uint32(codes[0].Code), codes[0].Len)
+		df := vrt.Int("diff", -3, 3)
+		want[i] = 128 + df
+		cat, bits := refCategory(df)
+		c := codes[tds[i]][cat]
+		_ = he.WriteBits(uint32(c.Code), c.Len)
+		if cat > 0 && cat != 16 {
+			_ = he.WriteBits(bits, cat)
+		}
 	}
 	_ = he.Flush()
 	_ = wr.WriteMarker(standard.MarkerEOI)
@@ -286,7 +318,143 @@ func VerifC13Headers() {
 	vrt.Assert(w == 1 && h == 1 && c == nc && p == P, "C13 geometry of conformant stream")
 	d := 0
 	for i := 0; i < nc; i++ {
-		d |= int(got[i]) ^ 128
+		d |= int(got[i]) ^ want[i]
 	}
-	vrt.Assert(d == 0, "C13 decoded sample of conformant stream")
+	vrt.Assert(d == 0, "C13 decoded samples of a conformant stream using table destinations 0..3")
+}
+
+// refCategory is T.81 F.1.2.1 / H.1.2.2: SSSS and the additional bits of a
+// difference (no additional bits for SSSS = 16).
+func refCategory(diff int) (int, uint32) {
+	if diff == -32768 {
+		return 16, 0
+	}
+	a := diff
+	if a < 0 {
+		a = -a
+	}
+	cat := 0
+	for a > 0 {
+		cat++
+		a >>= 1
+	}
+	if diff >= 0 {
+		return cat, uint32(diff)
+	}
+	return cat, uint32(diff-1) & (1<<uint(cat) - 1)
+}
+
+// refBits is an independent bit reader with T.81 byte-stuffing removal.
+type refBits struct {
+	b   []byte
+	pos int
+	cur uint32
+	n   int
+}
+
+func (r *refBits) bit() (int, bool) {
+	if r.n == 0 {
+		if r.pos >= len(r.b) {
+			return 0, false
+		}
+		v := r.b[r.pos]
+		r.pos++
+		if v == 0xFF {
+			if r.pos >= len(r.b) || r.b[r.pos] != 0 {
+				return 0, false
+			}
+			r.pos++
+		}
+		r.cur, r.n = uint32(v), 8
+	}
+	r.n--
+	return int(r.cur>>uint(r.n)) & 1, true
+}
+
+// refDecodeDiff decodes one difference with a canonical code table.
+func refDecodeDiff(r *refBits, codes []standard.HuffmanCode) (int, bool) {
+	code, l := 0, 0
+	cat := -1
+	for l < 16 && cat < 0 {
+		b, ok := r.bit()
+		if !ok {
+			return 0, false
+		}
+		code = code<<1 | b
+		l++
+		for s := 0; s <= 16; s++ {
+			if codes[s].Len == l && int(codes[s].Code) == code {
+				cat = s
+			}
+		}
+	}
+	if cat < 0 {
+		return 0, false
+	}
+	if cat == 0 {
+		return 0, true
+	}
+	if cat == 16 {
+		return -32768, true
+	}
+	v := 0
+	for i := 0; i < cat; i++ {
+		b, ok := r.bit()
+		if !ok {
+			return 0, false
+		}
+		v = v<<1 | b
+	}
+	if v < 1<<uint(cat-1) {
+		v += -(1 << uint(cat)) + 1
+	}
+	return v, true
+}
+
+// VerifC13Bits: the entropy-coded bits the library writes for a difference
+// are the T.81 coding (Huffman code of SSSS, then SSSS low-order bits, none
+// for SSSS = 16), and the library decoder reads a reference-coded scan.
+// 2x1 image, predictor 1: the second difference ranges over every value.
+func VerifC13Bits() {
+	P := []int{16, 8}[vrt.Choice("Pi", 0, vrt.Tier())]
+	px := symPixels("px", 2, P)
+	enc := &Encoder{width: 2, height: 1, components: 1, precision: P, predictor: 1}
+	samples := enc.pixelsToSamples(px)
+	// a fixed table keeps the symbolic work on the difference coding itself
+	var freq [256]uint64
+	for i := 0; i <= 16; i++ {
+		freq[i] = uint64(1 + i)
+	}
+	enc.dcTables[0] = standard.BuildOptimalHuffmanTable(freq)
+	enc.dcCodes[0] = standard.BuildHuffmanCodes(enc.dcTables[0])
+	var buf bytes.Buffer
+	vrt.Assert(enc.encodeScan(standard.NewWriter(&buf), samples) == nil, "C13 encodeScan returns no error")
+	ref := refDiffs(samples, 2, 1, 1, P, 1)
+	rb := &refBits{b: buf.Bytes()}
+	d0, ok0 := refDecodeDiff(rb, enc.dcCodes[0])
+	d1, ok1 := refDecodeDiff(rb, enc.dcCodes[0])
+	vrt.Assert(ok0 && ok1, "C13 independent T.81 entropy decoder parses the library's scan")
+	vrt.Assert(d0 == ref[0] && d1 == ref[1], "C13 independent T.81 entropy decoder reads the library's differences")
+	vrt.Out("d1", d1)
+	// reference-coded scan into the library decoder
+	var rbuf bytes.Buffer
+	he := standard.NewHuffmanEncoder(&rbuf)
+	for _, df := range ref {
+		cat, bits := refCategory(df)
+		c := enc.dcCodes[0][cat]
+		_ = he.WriteBits(uint32(c.Code), c.Len)
+		if cat > 0 && cat != 16 {
+			_ = he.WriteBits(bits, cat)
+		}
+	}
+	_ = he.WriteBits(0x2A, 7) // following data must not be consumed
+	_ = he.Flush()
+	dec := &Decoder{width: 2, height: 1, components: 1, precision: P, predictor: 1}
+	dec.dcTables[0] = enc.dcTables[0]
+	out, err := dec.decodeScan(standard.NewReader(bytes.NewReader(rbuf.Bytes())))
+	vrt.Assert(err == nil, "C13 library decoder accepts a reference-coded scan")
+	if err != nil {
+		return
+	}
+	vrt.Assert(out[0][0] == samples[0][0] && out[0][1] == samples[0][1], "C13 library decoder reads reference-coded differences")
 }
